@@ -21,7 +21,7 @@ import (
 
 func TestMain(m *testing.M) {
 	document.SetGlobalLevel(document.LogLevelSilent)
-	kit.TestMain(m, 1750, 30000)
+	kit.TestMain(m, 1650, 30000)
 }
 
 func run(c Case) *kit.Result {
@@ -570,6 +570,8 @@ func describe(res *kit.Result, c *Case, j *judge) {
 		lab(c.Foreign.AbsPkg, "file:absolute-package-targets")
 		lab(c.Foreign.Media1, "file:media-numbered-from-1")
 		lab(c.Foreign.RelIDs != 0, "file:other-relationship-ids")
+		lab(c.Foreign.JpgCT, "file:jpeg-declared-as-jpg")
+		lab(c.Foreign.JpgCT && j != nil && j.nJpegInserted > 0, "file:jpeg-declared-as-jpg+jpeg-picture-inserted")
 	}
 	res.Label(fmt.Sprintf("prior:%d", c.Prior))
 	lab(cs.splitAcrossRuns > 0, "ph:split-across-runs")
@@ -651,6 +653,8 @@ func describe(res *kit.Result, c *Case, j *judge) {
 		lab(j.nLenientLoops > 0, "spelling:loop-marker-undocumented-blanks")
 		lab(j.nLenientLoopsItems > 0, "spelling:loop-marker-undocumented-blanks+items")
 		lab(j.nLenientImgs > 0, "spelling:image-undocumented-blanks")
+		lab(j.nEdgeBlankValues > 0, "value:edge-blanks-substituted")
+		lab(j.nJpegInserted > 0, "image:jpeg-inserted")
 		lab(j.nConds > 0, "doc:conditional-block")
 		lab(j.nCondHit > 0, "reading:conditional-processed")
 		lab(j.nConds > j.nCondHit, "reading:conditional-left-alone")
@@ -670,7 +674,7 @@ func describe(res *kit.Result, c *Case, j *judge) {
 	sort.Strings(keys)
 	res.Shape = sk.String() + "#" + strings.Join(dv, "") + "#" + strings.Join(keys, "") + fmt.Sprintf("#e%d", c.Entry)
 	if c.Foreign.any() {
-		res.Shape += fmt.Sprintf("f%s%s%s%s", b01(c.Foreign.AbsHF), b01(c.Foreign.AbsAll), b01(c.Foreign.AbsPkg), b01(c.Foreign.Media1)) + itoa(c.Foreign.RelIDs)
+		res.Shape += fmt.Sprintf("f%s%s%s%s", b01(c.Foreign.AbsHF), b01(c.Foreign.AbsAll), b01(c.Foreign.AbsPkg), b01(c.Foreign.Media1)) + itoa(c.Foreign.RelIDs) + b01(c.Foreign.JpgCT)
 	}
 	if c.Prior > 0 {
 		res.Shape += fmt.Sprintf("#p%d", c.Prior)
@@ -680,7 +684,7 @@ func describe(res *kit.Result, c *Case, j *judge) {
 func TestC18(t *testing.T) {
 	kit.Main(t, kit.Spec[Case]{
 		ID: "C18", Level: "exploration",
-		Rule: "base document built through the API: 1-6 (thorough 1-9) body blocks = paragraphs whose text is drawn as tokens (literals incl. XML metacharacters/Unicode, lone and double braces, variable names as literal text, {{name}} placeholders; nine names, among them v1/v10 and name/Name) and then cut into up to 6 runs at drawn rune positions (half of the cuts inside a placeholder) with formats from a palette, plus page-break / inline-picture / PAGE-field runs at run boundaries and paragraph-property setter calls; tables (1-4 x 1-3, one horizontal or vertical merge, header row, row height, shaded cells, nested tables) with cell paragraphs of the same kind, in half of the tables one row in the documented row-loop shape ({{#each list}} in its first cell, {{/each}} in its last, sometimes a word before/after the marker; cells of 1-2 paragraphs holding item fields, each cut into up to 5 runs of different formats - cuts inside the markers and the fields - with page-break, picture and field runs and paragraph-property setters); paragraphs and cell paragraphs holding {{#image x}} (alone, or with non-blank text around / two placeholders); the white space between '#each' / '#image' / '#if' and the name is the one documented blank in about half of the draws, otherwise 1-3 blanks/tabs; literal tokens and whole table rows that only look like placeholders/markers ('{{ name }}', '{{#each rows }}', '{{ /each}}', '{{#Each rows}}', '{{#Image logo}}' ...); one-format paragraphs holding one conditional block {{#if c}}words[{{else}}words]{{/if}} with conditions set true/false/unset; 0-3 headers/footers of distinct kinds with placeholders; section settings, document properties, a custom style, list items. Sizes past ten with a small probability each: 10-17 body blocks, a paragraph of 12-24 tokens cut into 11-15 runs, a table of 10-12 columns or 10-13 rows, lists of 9-13 (rarely 62-70) items, up to all six header/footer kinds, and a base document that already shows 8-14 inline pictures (one to three picture paragraphs, mostly of one format and followed by an image placeholder). Data: a drawn subset of the variable names (strings incl. XML metacharacters, braces, blanks, empty, and characters that other substitution mechanisms interpret: '$1' '${x}' 'US$100' '\\1' '%s' '%'; ints, int64, float64 with exact short decimals, bools, zero and negative numbers; control characters only for names used in headers/footers), lists of 0-3 (sometimes 9-13) maps with a drawn subset of the fields, in a third of the cases with integer-looking fields passed as int, image data for a drawn subset of the image names. Rendered through LoadTemplateFromDocument+RenderTemplateToDocument, or saved and rendered through TemplateRenderer.LoadTemplateFromFile+RenderTemplate (optionally after adding Word-style package relationships to the file; in two of three file cases the file is first rewritten, without the library, into another legal spelling of the same package: header/footer or all relationship targets of the main part and/or the package relationships as absolute part names, media parts numbered from 1). History: in about a fifth of the cases the same template was rendered before with other data (every name supplied, other pictures), in some of those a second template of the same engine was loaded and rendered in between, or the earlier rendering was given undecodable picture data (its outcome is ignored); the judged rendering is the last one. non-trivial = some placeholder is cut across runs of different formats (in the case and as seen in the saved base) and the document has both a supplied and an unsupplied placeholder and a table or a header/footer; distinct = distinct (block skeleton: run counts, non-text run kinds, setter kinds, table shapes/loop row/merges; header/footer kinds; per-name value class vector; list lengths; entry point, file spelling, history)",
+		Rule: "base document built through the API: 1-6 (thorough 1-9) body blocks = paragraphs whose text is drawn as tokens (literals incl. XML metacharacters/Unicode, lone and double braces, variable names as literal text, {{name}} placeholders; nine names, among them v1/v10 and name/Name) and then cut into up to 6 runs at drawn rune positions (half of the cuts inside a placeholder) with formats from a palette, plus page-break / inline-picture / PAGE-field runs at run boundaries and paragraph-property setter calls; tables (1-4 x 1-3, one horizontal or vertical merge, header row, row height, shaded cells, nested tables) with cell paragraphs of the same kind, in half of the tables one row in the documented row-loop shape ({{#each list}} in its first cell, {{/each}} in its last, sometimes a word before/after the marker; cells of 1-2 paragraphs holding item fields, each cut into up to 5 runs of different formats - cuts inside the markers and the fields - with page-break, picture and field runs and paragraph-property setters); paragraphs and cell paragraphs holding {{#image x}} (alone, or with non-blank text around / two placeholders); the white space between '#each' / '#image' / '#if' and the name is the one documented blank in about half of the draws, otherwise 1-3 blanks/tabs; literal tokens and whole table rows that only look like placeholders/markers ('{{ name }}', '{{#each rows }}', '{{ /each}}', '{{#Each rows}}', '{{#Image logo}}' ...); one-format paragraphs holding one conditional block {{#if c}}words[{{else}}words]{{/if}} with conditions set true/false/unset; 0-3 headers/footers of distinct kinds with placeholders; section settings, document properties, a custom style, list items. Sizes past ten with a small probability each: 10-17 body blocks, a paragraph of 12-24 tokens cut into 11-15 runs, a table of 10-12 columns or 10-13 rows, lists of 9-13 (rarely 62-70) items, up to all six header/footer kinds, and a base document that already shows 8-14 inline pictures (one to three picture paragraphs, mostly of one format and followed by an image placeholder). Data: a drawn subset of the variable names (strings incl. XML metacharacters, braces, blanks, empty, and characters that other substitution mechanisms interpret: '$1' '${x}' 'US$100' '\\1' '%s' '%'; ints, int64, float64 with exact short decimals, bools, zero and negative numbers; control characters only for names used in headers/footers), lists of 0-3 (sometimes 9-13) maps with a drawn subset of the fields, in a third of the cases with integer-looking fields passed as int, image data for a drawn subset of the image names. Rendered through LoadTemplateFromDocument+RenderTemplateToDocument, or saved and rendered through TemplateRenderer.LoadTemplateFromFile+RenderTemplate (optionally after adding Word-style package relationships to the file; in two of three file cases the file is first rewritten, without the library, into another legal spelling of the same package: header/footer or all relationship targets of the main part and/or the package relationships as absolute part names, media parts numbered from 1, relationship ids with gaps / not of the rIdN form, JPEG declared as Word does: Default jpg=image/jpeg, JPEG media renamed to *.jpg, no Default for jpeg). History: in about a fifth of the cases the same template was rendered before with other data (every name supplied, other pictures), in some of those a second template of the same engine was loaded and rendered in between, or the earlier rendering was given undecodable picture data (its outcome is ignored); the judged rendering is the last one. non-trivial = some placeholder is cut across runs of different formats (in the case and as seen in the saved base) and the document has both a supplied and an unsupplied placeholder and a table or a header/footer; distinct = distinct (block skeleton: run counts, non-text run kinds, setter kinds, table shapes/loop row/merges; header/footer kinds; per-name value class vector; list lengths; entry point, file spelling, history)",
 		Gen:  genCase, Run: run, Findings: findings, Fixed: fixedCases,
 		Assumptions: []string{
 			"placeholder syntax as documented: {{name}} with name = [A-Za-z0-9_]+, {{#each list}} ... {{/each}} around the cells of one table row, {{#image name}}; placeholders are found by scanning the concatenated text of a paragraph from left to right (own scanner)",
@@ -693,7 +697,10 @@ func TestC18(t *testing.T) {
 			"an image placeholder whose image has no data stands alone in its paragraph; the only demand is that one paragraph naming the image stays in its place (the statement is silent on more)",
 			"text and pictures replacing an image-placeholder paragraph are compared as one flattened sequence, however many paragraphs the library splits them into; properties of picture-only paragraphs are not judged",
 			"a header/footer value that XML 1.0 cannot carry is only required to leave the part well-formed",
-			"XML parts are compared as canonical trees (attribute order, empty-element form and indentation ignored); an empty w:rPr / w:pPr equals an absent one; xml:space on w:t is not compared",
+			"XML parts are compared as canonical trees (attribute order, empty-element form and indentation ignored); an empty w:rPr / w:pPr equals an absent one",
+			"the text of a body w:t is what a consumer of the saved file reads (ECMA-376 17.3.3.31, XML 1.0 2.10): white space at the edges of its character data counts only when xml:space=\"preserve\" is in force on the element or an ancestor - in the base and in the rendered document alike; a supplied value that begins or ends with blanks has to arrive with them",
+			"a picture inserted for an image placeholder is a part of the rendered package only when [Content_Types].xml covers it (Override for the part name or Default for its extension, matched without regard to case) with the media type of its bytes (image/png, image/jpeg, image/gif); which extension and part name the library chooses is its business",
+			"a producer may declare JPEG under the extension jpg (<Default Extension=\"jpg\" ContentType=\"image/jpeg\"/>, media parts *.jpg, no Default for jpeg) and may declare Defaults no part uses yet: a template file rewritten that way is the same template",
 			"for the file entry points the base document is what the library holds after opening the file (tpl.BaseDoc re-saved), so losses of the reader are not attributed to rendering",
 			"a relationship target may be written relative to its source part or as an absolute part name (OPC part 2, 9.3: both denote the same part), and the pictures of a package may carry any numbers: a template file rewritten that way is the same template",
 			"a number or bool passed as a value renders as its plain decimal text / true|false (values are chosen so that the shortest and the %v rendering agree); an item field given as int renders like its decimal text",
@@ -708,6 +715,7 @@ func TestC18(t *testing.T) {
 			"value:dollar-in-header-footer": 0.05, "value:subst-meta": 0.3, "value:typed-f": 0.04, "value:typed-b": 0.03, "value:typed-i64": 0.03, "list:typed-item-fields": 0.2, "list:9+items": 0.01,
 			"doc:11+pictures": 0.02, "doc:11+pictures+image-placeholder+file": 0.01, "doc:10+blocks": 0.005, "doc:table-10+rows-or-cols": 0.005, "para:11+runs": 0.01, "doc:4+headers-footers": 0.05,
 			"file:foreign-spelling": 0.1, "file:absolute-header-footer-targets+hf": 0.05, "file:absolute-main-part-targets": 0.03, "file:absolute-package-targets": 0.02, "file:media-numbered-from-1": 0.03, "file:other-relationship-ids": 0.03,
+			"value:edge-blanks-substituted": 0.1, "file:jpeg-declared-as-jpg": 0.05, "file:jpeg-declared-as-jpg+jpeg-picture-inserted": 0.008, "image:jpeg-inserted": 0.05,
 			"prior:1": 0.05, "prior:2": 0.02, "prior:3": 0.02,
 			"looprow:2+formats-in-a-paragraph": 0.1, "looprow:3+runs-in-a-paragraph": 0.1, "looprow:marker-split-across-runs": 0.1, "looprow:nontext-br": 0.04, "looprow:nontext-pic": 0.015, "looprow:nontext-fld": 0.015},
 	})
